@@ -691,7 +691,7 @@ impl<'s, 'd> Gen<'s, 'd> {
     /// whose result the caller binds and applies on some paths only.
     fn returned_closure(&mut self, sc: &mut Scope, t: &Ty, d: usize) -> E {
         self.mark("returned-closure");
-        let fname = self.name("mk");
+        let fname = format!("mk{}", self.m.fns.len());
         let ft = Ty::func(vec![Ty::Int], Ty::Int);
         let second_is_list = self.src.bool();
         let pb_ty = if second_is_list { Ty::list(Ty::Int) } else { Ty::Int };
@@ -1712,5 +1712,22 @@ impl<'s, 'd> Gen<'s, 'd> {
         self.m.fns.push(FnDecl { name: "entry".into(), tyvars: 0, params: params.clone(), ret: fret, body, public: true });
         self.bound_int_recursion_calls();
         Entry { name: "entry".into(), params: params.into_iter().map(|p| p.1).collect(), ret }
+    }
+
+    /// One more exported function in the same module (after `module()`). Local names restart, so
+    /// that different functions can contain textually identical lines (e.g. the same `expect`).
+    pub fn another_entry(&mut self, name: &str) -> Entry {
+        self.fresh = 0;
+        let np = 1 + self.src.below(2);
+        let params: Vec<(String, Ty)> = (0..np).map(|i| (format!("arg{i}"), self.ty(1))).collect();
+        let ret = self.ty(2);
+        let mut sc = Scope { vars: params.clone(), rec: None };
+        self.nodes = 0;
+        let depth = 2 + self.src.below(self.cfg.max_depth - 1);
+        let body = self.expr(&mut sc, &ret, depth);
+        let (body, fret) = if ret == Ty::Data { (body, ret.clone()) } else { (E::ToData(bx(body), ret.clone()), Ty::Data) };
+        self.m.fns.push(FnDecl { name: name.to_string(), tyvars: 0, params: params.clone(), ret: fret, body, public: true });
+        self.bound_int_recursion_calls();
+        Entry { name: name.to_string(), params: params.into_iter().map(|p| p.1).collect(), ret }
     }
 }
